@@ -1,7 +1,7 @@
 package netutil
 
 // C58 — LimitListener never exceeds its connection limit.
-// Shape: symbolic scheduler over 2..3 acceptor goroutines and one closer; the ghost counter of
+// Shape: symbolic scheduler over 1..2 acceptor goroutines and one closer; the ghost counter of
 // accepted-and-not-yet-closed connections lives in the stub inner listener/conn, so it changes exactly at the
 // inner Accept/Close events.
 // Mutations caught: see checks/C58.json notes.
@@ -17,6 +17,8 @@ func init() {
 	vfRegister("VerifC58_closed", VerifC58_closed)
 	vfRegister("VerifC58_concurrentClose", VerifC58_concurrentClose)
 	vfRegister("VerifC58_transientError", VerifC58_transientError)
+	vfRegister("VerifC58_acceptAfterClose", VerifC58_acceptAfterClose)
+	vfRegister("VerifC58_wakeOnClose", VerifC58_wakeOnClose)
 }
 
 type c58world struct {
@@ -29,6 +31,13 @@ type c58world struct {
 type c58listener struct {
 	w         *c58world
 	transient int // number of temporary errors to return before accepting connections
+	// closeMode: what the wrapped Close REPORTS (it always closes the wrapped listener: Accept fails afterwards).
+	// 0 = nil every time; 1 = nil the first time, an error for every later Close (net.TCPListener: "use of closed
+	// network connection"); 2 = an error every time (e.g. the owner closed the wrapped listener directly before, or
+	// a Close whose cleanup fails). The property's "Accept after Close returns an error without blocking" is
+	// unconditional: it does not depend on what the wrapped Close reports.
+	closeMode int
+	closes    int
 }
 
 type c58tempErr struct{}
@@ -54,7 +63,14 @@ func (l *c58listener) Accept() (net.Conn, error) {
 	}
 	return &c58conn{w: l.w}, nil
 }
-func (l *c58listener) Close() error   { l.w.closed = true; return nil }
+func (l *c58listener) Close() error {
+	l.w.closed = true
+	l.closes++
+	if l.closeMode == 2 || (l.closeMode == 1 && l.closes > 1) {
+		return c58errClosed
+	}
+	return nil
+}
 func (l *c58listener) Addr() net.Addr { return nil }
 
 type c58conn struct {
@@ -81,18 +97,20 @@ func (c *c58conn) SetWriteDeadline(t time.Time) error { return nil }
 func VerifC58_limit() {
 	vfNoDeadlock()
 	n := 1 + vfChoice("n", 2)
-	nacc := 2
-	if vfTier() > 0 {
-		nacc = 3
-	}
+	// 2 acceptors + 1 closer + main; the second acceptor closes its connection exactly once. The thorough tier runs
+	// the same program with one more preemption (1.3M schedules). 3 acceptors: a single configuration is > 2M
+	// schedules at the engine's scheduling granularity (measured): out of reach.
+	const nacc = 2
 	w := &c58world{n: n}
-	ll := LimitListener(&c58listener{w: w}, n)
+	// what the wrapped Close reports: nil, or an error (mode 2; the wrapped listener is closed either way)
+	inner := &c58listener{w: w, closeMode: 2 * vfChoice("wrapped Close reports an error", 2)}
+	ll := LimitListener(inner, n)
 	done := make(chan int, nacc+1)
 	accepted := 0
 	for i := 0; i < nacc; i++ {
-		// this acceptor closes its connection 0, 1 or 2 times (quick: the second acceptor exactly once)
+		// this acceptor closes its connection 0, 1 or 2 times (the second acceptor exactly once)
 		closes := 0
-		if i == 1 && vfTier() == 0 {
+		if i == 1 {
 			closes = 1
 		} else {
 			closes = vfChoice("closes", 3)
@@ -109,14 +127,19 @@ func VerifC58_limit() {
 		})
 	}
 	vfGo(func() {
-		ll.Close()
+		cerr := ll.Close()
+		vfAssert((cerr != nil) == (inner.closeMode == 2), "Close reports the wrapped listener's result")
 		done <- 1
 	})
 	for i := 0; i < nacc+1; i++ {
 		<-done
 	}
 	vfAssert(w.open >= 0 && w.open <= n, "open connections within [0,n] at the end")
-	// after Close: Accept returns an error and does not block
+	// after Close: Accept returns an error and does not block (vfNoDeadlock: blocking here is a violation), also when
+	// all n slots are still held by open connections and whatever the wrapped Close reported
+	if w.open == n {
+		vfReach("accept-after-close-saturated")
+	}
 	c, err := ll.Accept()
 	vfAssert(err != nil && c == nil, "Accept after Close returns an error")
 	if w.maxed {
@@ -194,5 +217,78 @@ func VerifC58_transientError() {
 	vfAssert(len(ll.(*limitListener).sem) == n, "every accepted connection holds a slot")
 	blocked := vfBlocks(func() { ll.Accept() })
 	vfAssert(blocked, "Accept at the limit blocks")
+	vfReach("end")
+}
+
+// "Accept after Close returns an error without blocking", sequentially and for every combination of: limit n, number
+// k <= n of accepted connections still open (k == n: saturated, the semaphore cannot be acquired), what the wrapped
+// Close reports (c58listener.closeMode) and 1..2 Close calls on the limit listener (added after seeded change C58-D:
+// done closed only when the wrapped Close reports success).
+func VerifC58_acceptAfterClose() {
+	n := 1 + vfChoice("n", 2)
+	w := &c58world{n: n}
+	inner := &c58listener{w: w, closeMode: vfChoice("closeMode", 3)}
+	ll := LimitListener(inner, n)
+	k := vfLen("open connections", 0, n)
+	for i := 0; i < k; i++ {
+		_, err := ll.Accept()
+		vfAssert(err == nil, "accept below the limit succeeds")
+	}
+	ncl := 1 + vfChoice("Close calls", 2)
+	for i := 0; i < ncl; i++ {
+		err := ll.Close()
+		want := inner.closeMode == 2 || (inner.closeMode == 1 && i > 0)
+		vfAssert((err != nil) == want, "Close reports the wrapped listener's result")
+	}
+	for i := 0; i < 2; i++ {
+		var c net.Conn
+		var err error
+		blocked := vfBlocks(func() { c, err = ll.Accept() })
+		vfAssert(!blocked, "Accept after Close does not block")
+		vfAssert(err != nil && c == nil, "Accept after Close returns an error")
+	}
+	vfAssert(w.open == k, "no connection accepted or closed after Close")
+	if k == n {
+		vfReach("saturated")
+	}
+	if inner.closeMode != 0 {
+		vfReach("wrapped-close-error")
+	}
+	vfReach("end")
+}
+
+// An Accept that is (or becomes) blocked on the semaphore of a saturated listener is woken by a concurrent Close and
+// returns an error, whatever the wrapped Close reports; the n open connections are never closed, so only Close can
+// wake it (vfNoDeadlock: staying blocked is a violation). All interleavings of 1..2 blocked acceptors and the closer.
+func VerifC58_wakeOnClose() {
+	vfNoDeadlock()
+	n := 1 + vfChoice("n", 2)
+	w := &c58world{n: n}
+	inner := &c58listener{w: w, closeMode: vfChoice("closeMode", 3)}
+	ll := LimitListener(inner, n)
+	for i := 0; i < n; i++ {
+		_, err := ll.Accept()
+		vfAssert(err == nil, "accept below the limit succeeds")
+	}
+	nacc := 1 + vfChoice("acceptors", 2)
+	done := make(chan int, nacc+1)
+	for i := 0; i < nacc; i++ {
+		vfGo(func() {
+			c, err := ll.Accept()
+			vfAssert(err != nil && c == nil, "a saturated Accept only returns through Close, with an error")
+			done <- 1
+		})
+	}
+	vfGo(func() {
+		ll.Close()
+		if inner.closeMode == 1 {
+			ll.Close() // the second wrapped Close reports an error
+		}
+		done <- 1
+	})
+	for i := 0; i < nacc+1; i++ {
+		<-done
+	}
+	vfAssert(w.open == n, "the n connections stay open")
 	vfReach("end")
 }
